@@ -298,8 +298,12 @@ def leaf_flags(chk):
         leaf = None
         for kw in call.keywords:
             if kw.arg == "__leaf__":
-                if isinstance(kw.value, ast.Constant):
-                    leaf = bool(kw.value.value)
+                v = kw.value
+                if not isinstance(v, ast.Constant):
+                    mc = prog.module_constant(prog.resolve(fi.module, v)) if isinstance(v, (ast.Name, ast.Attribute)) else None
+                    v = mc[1] if mc is not None else v  # a named module-level constant (LEAF = True)
+                if isinstance(v, ast.Constant):
+                    leaf = bool(v.value)
         if leaf is None:
             chk.undecided(rule, fi.qual, "__leaf__ is not a literal", node=call)
             continue
@@ -391,10 +395,28 @@ def partial_core(chk):
             if g is not None and reaches_bind(g):
                 check = g
     if check is None:
+        # a module-level function of the same module that is handed the template:  _check_signature(self)
+        for n in ast.walk(init.node):
+            if isinstance(n, ast.Call) and isinstance(n.func, ast.Name) and n.args and util.dotted(n.args[0]) == "self":
+                r = prog.resolve(init.module, n.func)
+                g = prog.functions.get(r) if r else None
+                if g is not None and g.cls is None and reaches_bind(g):
+                    check = g
+    if check is None:
         for fis in cls.methods.values():
             for fi in fis:
                 if fi.name != "__init__" and reaches_bind(fi):
                     check = check or fi
+    if check is None:
+        raise Undecided("no signature check (a function reaching Signature.bind_partial) is called from Partial.__init__", init.node)
+
+    def is_check_call(e):
+        if e[0] != "call":
+            return False
+        if check.cls is not None:
+            return e[1][1] == ("attr", SELF, check.name)
+        return e[1][1] == ("glob", check.qual) and list(e[1][2])[:1] == [SELF]
+
     # O4.1a: __init__ reaches the check on every path
     it = Interp(prog, init)
     outs = it.run()
@@ -402,12 +424,12 @@ def partial_core(chk):
     ok = True
     for o in outs:
         if o.kind in ("normal", "return"):
-            calls = [e for e in o.path.events if e[0] == "call" and e[1][1] == ("attr", SELF, check.name)]
+            calls = [e for e in o.path.events if is_check_call(e)]
             if not calls:
                 chk.bad("O4.1", init.qual, "a Partial can be constructed without running the signature check (%s)" % check.name, node=init.node, stmt="init-skips-check")
                 ok = False
             stores = {e[1][2]: e[2] for e in o.path.events if e[0] == "store" and e[1][1] == SELF}
-            first_check = min([i for i, e in enumerate(o.path.events) if e[0] == "call" and e[1][1] == ("attr", SELF, check.name)] or [10**6])
+            first_check = min([i for i, e in enumerate(o.path.events) if is_check_call(e)] or [10**6])
             for i, e in enumerate(o.path.events):
                 if e[0] == "store" and e[1][1] == SELF and i > first_check and e[1][2] in ("args", "kwargs", "ctor", "leaf"):
                     chk.bad("O4.1", init.qual, "self.%s is assigned after the signature check ran" % e[1][2], node=init.node, stmt="store-after-check")
@@ -522,8 +544,9 @@ def check_signature_rules(chk, check):
                             return [("raise", exc_value(TYPEERROR, "bind"))]
                     return None
 
-                it = Interp(prog, check, decide=decide, call_hook=hook, inline=lambda f, ct: f.cls is check.cls and f is not check)
-                outs = it.run()
+                it = Interp(prog, check, decide=decide, call_hook=hook, inline=lambda f, ct: f.cls is check.cls and f is not check and (f.cls is not None or f.module is check.module))
+                # a module-level check receives the template as its first parameter: read it as `self`
+                outs = it.run() if check.cls is not None else it.run(env={("sym", check.params()[0]): SELF})
                 chk.count(len(outs))
                 scen += 1
                 label = "target keyword %s, leaf %s, binding %s" % (target_kw, leaf, "fails" if bind_fails else "succeeds")
